@@ -126,7 +126,8 @@ PROPS = {
         "assumptions": ["six ownership states are generated for pre-existing objects: foreign, other release name, same name other namespace, label only, annotations only, correctly owned", "CRDs from crds/ are generated by the dryrun sub-command (the install path creates them before the ownership check: known finding)"],
     },
     "C12": {
-        "corr": [("hooks", {"quick": 1200, "thorough": 30000})],
+        "corr": [("hooks", {"quick": 1200, "thorough": 30000}), ("actions", {"quick": 400, "thorough": 8000})],
+        "also": ["C01:model:writes"],
         "trusted_base": [
             "modelled, not verified: the hook list of a release (kinds, weights, events, policies parsed from annotations by SortManifests: C08; the model of execHook is fed with the list the implementation built, the monitors use the generator's own weights), hook readiness (WatchUntilReady is a scripted oracle), log-output policies, CustomResourceDefinition hooks (never deleted: not generated), the API server (a create of an existing object is refused)",
         ],
